@@ -43,6 +43,8 @@ type input struct {
 	Key     int      `json:"key,omitempty"`
 	IV      int      `json:"iv,omitempty"`
 	Msgs    []string `json:"msgs,omitempty"`
+	Extra   []string `json:"extra,omitempty"` // written into the same transcript hash after the exporter was created
+	Peer    string   `json:"peer,omitempty"`  // connection scenarios
 	NilTr   bool     `json:"nil_transcript,omitempty"`
 	NilNew  bool     `json:"nil_new,omitempty"`
 	NilCur  bool     `json:"nil_cur,omitempty"`
@@ -478,9 +480,17 @@ func run(c *vh.Ctx, in input) {
 		alg := suite13Alg(in.Suite)
 		msgs := unhexs(in.Msgs)
 		ctx := vh.UnHex(in.Ctx)
-		out, p := tls.VerifC26Exporter13(in.Suite, secret, msgs, string(label), ctx, in.N)
+		var out []byte
+		var p bool
+		if len(in.Extra) > 0 {
+			// the handshakes keep writing into the transcript after creating the exporter; the exporter
+			// master secret must still be the one for the transcript at creation time (= msgs)
+			out, p = tls.VerifC26Exporter13Late(in.Suite, secret, msgs, unhexs(in.Extra), string(label), ctx, in.N)
+		} else {
+			out, p = tls.VerifC26Exporter13(in.Suite, secret, msgs, string(label), ctx, in.N)
+		}
 		c.Case("case13", vh.App("XExporter", algName[alg], vh.Bytes(secret), msgsTerm(msgs), vh.Bytes(label), vh.Bytes(ctx), vh.NI(in.N), ob(out, !p)), in,
-			fmt.Sprintf("e13|%d|%d|%d|%d", alg, len(label), len(ctx), in.N))
+			fmt.Sprintf("e13|%d|%d|%d|%d|%d", alg, len(label), len(ctx), in.N, len(in.Extra)))
 		// RFC 8446 7.5
 		h := hashOf(alg)
 		em, ok1 := refExpandLabel(h, secret, []byte("exp master"), sum(h, bytes.Join(msgs, nil)), algSize[alg])
@@ -745,6 +755,11 @@ func gen(c *vh.Ctx) {
 		add(input{Kind: "next", Suite: s.ID, Secret: rb(c, hl)})
 		add(input{Kind: "finished13", Suite: s.ID, Secret: rb(c, hl), Msgs: []string{rb(c, c.Intn(100)), rb(c, c.Intn(100))}})
 		add(input{Kind: "finished13", Suite: s.ID, Secret: rb(c, hl), Msgs: []string{}})
+		// exporter used after the same transcript hash has advanced (client's second flight)
+		for _, n := range []int{hl, 20} {
+			add(input{Kind: "exporter13", Suite: s.ID, Secret: rb(c, hl), Msgs: []string{rb(c, 20+c.Intn(80)), rb(c, c.Intn(50))}, Extra: []string{rb(c, 1+c.Intn(60)), rb(c, 4+hl)},
+				Label: vh.Hex([]byte("EXPORTER-late")), Ctx: rb(c, c.Pick([]int{0, 9})), N: n})
+		}
 		for _, n := range []int{0, 1, hl, hl + 1, 100} {
 			add(input{Kind: "exporter13", Suite: s.ID, Secret: rb(c, hl), Msgs: []string{rb(c, c.Intn(100))}, Label: vh.Hex([]byte("EXPORTER-test")), Ctx: rb(c, c.Pick([]int{0, 5, 300})), N: n})
 		}
@@ -783,6 +798,7 @@ func gen(c *vh.Ctx) {
 		run(c, queue[(i*stride)%n])
 	}
 	emsScenario(c)
+	connScenarios(c)
 	c.Note("ems_function_present: false — the tree has no extended-master-secret (RFC 7627) derivation: the extension is offered/parsed/logged, both handshakes call masterFromPreMasterSecret unconditionally; nothing to tie")
 }
 
@@ -797,6 +813,10 @@ func replay(c *vh.Ctx, raw json.RawMessage) {
 	}
 	if in.Kind == "ems-interop" {
 		emsScenario(c)
+		return
+	}
+	if in.Kind == "conn13" || in.Kind == "conn12" {
+		runConn(c, in)
 		return
 	}
 	run(c, in)
